@@ -167,6 +167,8 @@ def eval_polygon(case):
                 d = np.linalg.norm(v3 - np.asarray(C.centroid), axis=1)
                 if np.max(np.abs(d - C.radius)) > 1e-8 * (size + far):
                     bad("circumcircle", "the circle does not pass through every vertex", ["definition"])
+                elif abs(float(np.dot(nrm, np.asarray(C.centroid, dtype=float) - v3[0]))) > 1e-8 * (size + far):
+                    bad("circumcircle", "the centre of the circle lies off the polygon's plane", ["definition", "centre_off_plane"])
         except RuntimeError:
             if B["cyclic"]:
                 bad("circumcircle", "RuntimeError although the vertices are concyclic", ["exists_but_raised"])
@@ -183,7 +185,10 @@ def eval_polygon(case):
             C = P.incircle
             c = np.asarray(C.centroid, dtype=float)
             dist = np.sum(outn * (V - c), axis=1)
-            if not (C.radius > 0 and np.max(np.abs(dist - C.radius)) <= 1e-8 * (size + far)):
+            offplane = abs(float(np.dot(np.asarray(P.normal, dtype=float), c - V[0])))
+            if offplane > 1e-8 * (size + far):
+                bad("incircle", f"the centre of the returned circle lies {offplane!r} off the polygon's plane", ["definition", "centre_off_plane"])
+            elif not (C.radius > 0 and np.max(np.abs(dist - C.radius)) <= 1e-8 * (size + far)):
                 bad("incircle", f"returned circle (r = {float(C.radius)!r}) is not tangent to every edge from inside "
                     f"(distances {dist.min()!r}..{dist.max()!r})", ["definition"])
         except RuntimeError:
